@@ -5,6 +5,7 @@ import (
 	"errors"
 
 	"github.com/golang/protobuf/proto"
+	"github.com/vx-labs/cluster/membership"
 	"github.com/vx-labs/mqtt-protocol/packet"
 	"github.com/vx-labs/wasp/v4/wasp/api"
 	rt "github.com/vx-labs/wasp/v4/zzsymxrt"
@@ -21,14 +22,33 @@ var symxNet struct {
 	dest    uint64
 	brokers map[uint64]*symxBroker
 	fail    map[uint64]bool
-	calls   map[uint64]int
+	// how a failing node fails (the contract of cluster/membership's pool.Call): 0 the remote
+	// call itself returns an error; 1 the node is not (or no longer) in the membership pool,
+	// ErrPeerNotFound without any call; 2 disabled by health checks, ErrPeerDisabled
+	kind  map[uint64]int
+	calls map[uint64]int
 }
 
 type symxTransport struct{}
 
 func (symxTransport) Call(id uint64, f func(*grpc.ClientConn) error) error {
 	symxNet.dest = id
+	if symxNet.fail[id] && symxNet.kind[id] == 1 {
+		symxNet.calls[id]++
+		return membership.ErrPeerNotFound
+	}
+	if symxNet.fail[id] && symxNet.kind[id] == 2 {
+		symxNet.calls[id]++
+		return membership.ErrPeerDisabled
+	}
 	return f(nil)
+}
+
+// symxFailureKind lets the solver choose how an unreachable node fails.
+func symxFailureKind(id uint64) {
+	if symxNet.fail[id] {
+		symxNet.kind[id] = int(rt.Int("failure_kind", 0, 2))
+	}
 }
 
 func symxRemoteSchedule(c interface{}, ctx context.Context, in *api.ScheduleMessageRequest, opts ...grpc.CallOption) (*api.ScheduleMessageResponse, error) {
@@ -44,6 +64,13 @@ func symxRemoteSchedule(c interface{}, ctx context.Context, in *api.ScheduleMess
 func symxResetNet() {
 	symxNet.brokers = map[uint64]*symxBroker{}
 	symxNet.fail = map[uint64]bool{}
+	symxNet.kind = map[uint64]int{}
+	// the engine does not run the initialiser of cluster/membership (a library package that is
+	// never called into here), so its exported error values are set up the way its init does
+	if membership.ErrPeerNotFound == nil {
+		membership.ErrPeerNotFound = errors.New("peer not found")
+		membership.ErrPeerDisabled = errors.New("peer disabled by healthchecks")
+	}
 	symxNet.calls = map[uint64]int{}
 }
 
@@ -88,6 +115,7 @@ func symxC14() {
 	}
 	for id := uint64(2); id <= 3; id++ {
 		symxNet.fail[id] = rt.Bool("unreachable")
+		symxFailureKind(id)
 	}
 	bs[1].log.failAppend = rt.Bool("local_log_fails")
 	pubS, pubC := bs[1].session("pub", "cpub", "m", 30)
